@@ -723,18 +723,19 @@ std::vector<cld> strip_ld(const std::vector<cld> &b, int n, int ldb, int nrhs) {
 
 static uint64_t ld_bits(ld v) { double d = (double)v; uint64_t u; memcpy(&u, &d, sizeof u); return u; }
 void fold_outputs(Ctx &x, long info, const XOut *xo = nullptr) {
-    sim::obs((uint64_t)info + 77);
+    auto ob = [&](uint64_t v) { sim::obs(v); x.out.h_out = sim::mix(x.out.h_out, v); };
+    ob((uint64_t)info + 77);
     if (xo) {   // every scalar and vector the expert driver reports belongs to the observable outcome
-        sim::obs((uint64_t)xo->equed + 1234); sim::obs(ld_bits(xo->rpg)); sim::obs(ld_bits(xo->rcond));
-        for (ld v : xo->ferr) sim::obs(ld_bits(v));
-        for (ld v : xo->berr) sim::obs(ld_bits(v));
-        if (xo->equed == 1 || xo->equed == 3) for (ld v : xo->R) sim::obs(ld_bits(v));
-        if (xo->equed == 2 || xo->equed == 3) for (ld v : xo->C) sim::obs(ld_bits(v));
+        ob((uint64_t)xo->equed + 1234); ob(ld_bits(xo->rpg)); ob(ld_bits(xo->rcond));
+        for (ld v : xo->ferr) ob(ld_bits(v));
+        for (ld v : xo->berr) ob(ld_bits(v));
+        if (xo->equed == 1 || xo->equed == 3) for (ld v : xo->R) ob(ld_bits(v));
+        if (xo->equed == 2 || xo->equed == 3) for (ld v : xo->C) ob(ld_bits(v));
     }
-    for (int v : x.drv->get_perm_r()) sim::obs((uint64_t)v + 3);
-    for (int v : x.drv->get_perm_c()) sim::obs((uint64_t)v + 5);
-    sim::obs(x.drv->B_hash()); sim::obs(x.drv->X_hash());
-    if (x.drv->have_LU()) { LUDump d; x.drv->dump_LU(d); sim::obs(d.ok ? d.bits_hash : 1); }
+    for (int v : x.drv->get_perm_r()) ob((uint64_t)v + 3);
+    for (int v : x.drv->get_perm_c()) ob((uint64_t)v + 5);
+    ob(x.drv->B_hash()); ob(x.drv->X_hash());
+    if (x.drv->have_LU()) { LUDump d; x.drv->dump_LU(d); ob(d.ok ? d.bits_hash : 1); }
 }
 
 } // namespace
@@ -1029,5 +1030,22 @@ Outcome run_case(Case &c, const RunnerOpts &ro) {
     monitor_collect(out.viols, -1);
     monitor_probes(out.probes);
     g_case = nullptr; g_out = nullptr; g_sig_suffix.clear();
+    if (c.profile == "alloc" && !ro.nested && c.tags.count("alloc_mode") && c.tags["alloc_mode"] == 2 && out.end == sim::END_NORMAL) {
+        // C14: with a sufficient caller workspace the results match the internally allocated mode.  With one thread nothing depends on a schedule,
+        // so "match" is bit-identity of every output (info, permutations, L, U, X, B, rcond, ferr, berr, ...): the same calls are repeated with lwork = 0
+        bool one_thread = true, ws = false;
+        for (auto &q : c.ops) { if (q.x.nprocs != 1) one_thread = false; if (q.x.lwork > 0) ws = true; }
+        if (one_thread && ws) {
+            Case c2 = c; for (auto &q : c2.ops) { q.x.lwork = 0; q.x.work_align = 0; }
+            c2.tags["alloc_mode"] = 0;
+            RunnerOpts r2; r2.record = false; r2.nested = true;
+            const Case *sc = g_case; Outcome *so = g_out; int sop = g_op; std::string ss = g_sig_suffix;
+            Outcome o2 = run_case(c2, r2);
+            g_case = sc; g_out = so; g_op = sop; g_sig_suffix = ss;
+            out.probes["workspace_vs_internal_mode_compared"]++;
+            if (o2.end == sim::END_NORMAL && o2.h_out != out.h_out)
+                add_viol(out, "C14", "result_differs_between_workspace_modes", "one thread: the outputs with a sufficient caller workspace are not bit-identical to those of the same calls with lwork = 0", (int)c.ops.size() - 1);
+        }
+    }
     return out;
 }
